@@ -3,7 +3,9 @@ package verifharness
 
 import (
 	"bytes"
+	"context"
 	"encoding/json"
+	"errors"
 	"fmt"
 	"os"
 	"os/exec"
@@ -14,6 +16,7 @@ import (
 	"strconv"
 	"strings"
 	"testing"
+	"time"
 
 	"github.com/corazawaf/coraza/v3"
 	"github.com/corazawaf/coraza/v3/debuglog"
@@ -520,14 +523,24 @@ func callSig(args string) string {
 
 var reTrace = regexp.MustCompile(`^(\d+)\s+(openat|write|pwrite64|read|pread64|close|unlinkat|mkdirat|renameat|fsync)\((.*)`)
 
+var errC20Hang = errors.New("the scenario did not finish within 120 s (hang)")
+
 func c20Child(s *C20Scenario, dir string, straceArgs []string, traceFile string) (*C20Result, string, error) {
 	spec, _ := json.Marshal(s)
 	exe, _ := os.Executable()
 	args := append([]string{"-f", "-y", "-o", traceFile}, straceArgs...)
 	args = append(args, exe, "-test.run", "^TestC20Child$", "-test.count=1")
-	cmd := exec.Command("strace", args...)
+	// a scenario takes some tens of milliseconds; two minutes without an answer is a hang (e.g. a lock that is never
+	// released after the injected fault), whatever the load of the machine
+	ctx, cancel := context.WithTimeout(context.Background(), 120*time.Second)
+	defer cancel()
+	cmd := exec.CommandContext(ctx, "strace", args...)
 	cmd.Env = append(os.Environ(), "VERIF_C20_SCENARIO="+string(spec), "VERIF_C20_DIR="+dir, "VERIF_STATS=", "VERIF_FAILDIR=", "GOMAXPROCS=1")
+	cmd.WaitDelay = 5 * time.Second
 	out, err := cmd.CombinedOutput()
+	if ctx.Err() != nil {
+		return nil, string(out), errC20Hang
+	}
 	var r C20Result
 	for _, l := range strings.Split(string(out), "\n") {
 		if strings.HasPrefix(l, "C20-RESULT ") {
@@ -693,6 +706,12 @@ func checkC20Faults(c *C20FaultCase) Result {
 		what := fmt.Sprintf("%s #%d failing with %s on %s", p.Syscall, p.Nth, errno, strings.Replace(p.Path, recDir, "<dir>", 1))
 		ctx := func() string {
 			return fmt.Sprintf("\nscenario %+v\ninjected: %s\nresult: %+v\ninjected line: %s", *s, what, r, injLine)
+		}
+		if err == errC20Hang {
+			fail := &Failure{Msg: fmt.Sprintf("with %s the transaction, Close or the following transaction on the same WAF never returned (120 s): a hang%s", what, ctx()), Site: "hang"}
+			recordFaultCase(c, &p, fail)
+			res.Fail = fail
+			return res
 		}
 		if err != nil {
 			fail := &Failure{Msg: fmt.Sprintf("the child died or printed no result with %s:\n%s%s", what, lastLines(out, 30), ctx()), Site: "child-crash"}
